@@ -170,6 +170,7 @@ static void tr_flush() {
 // ------------------------------------------------------------------------------------ reporting
 static void copy_counts();
 static void dump_backtraces();
+static void describe_blocked(char* buf, size_t n);
 [[noreturn]] static void finish(const char* cls, const char* msg) {
     g_active = 0;
     if (g_trace && strcmp(cls, "ok") != 0) dump_backtraces();
@@ -183,7 +184,7 @@ static void dump_backtraces();
         __sync_synchronize();
         g_out->done = 1;
     }
-    if (g_trace) { tr("[sim] verdict %s: %s steps=%llu\n", cls, msg ? msg : "", (unsigned long long)g_step); tr_flush(); }
+    if (g_trace) { char fb[1500]; describe_blocked(fb, sizeof fb); tr("[sim] fibers: %s\n", fb); tr("[sim] verdict %s: %s steps=%llu\n", cls, msg ? msg : "", (unsigned long long)g_step); tr_flush(); }
     fflush(stderr);
     _exit(0);
 }
